@@ -573,7 +573,7 @@ func sameFieldLoad(a, b ssa.Value) bool {
 // builderCall: one construction of a compare query inside a builder.
 type builderSite struct {
 	fn                *ssa.Function
-	call              *ssa.Call       // the constructor call (or direct allocation)
+	call              ssa.Instruction // the constructor call, or the allocation of the query when the builder fills it itself
 	cmpType           *types.Named    // comparator type constructed
 	valType           *types.Named    // validator stored into an interface-embedded comparator (DirectEQ), if any
 	valStored         ssa.Value       // the value stored as that validator (a conversion to the interface, or a phi of such)
@@ -631,7 +631,14 @@ func findCompareQueryShape(c *engine.Context) *compareQueryShape {
 						}
 					}
 					fieldOfList := func(list ssa.Value) int {
-						// list = result of invoke compute on load of field f
+						// list = result of compute on (a field of ...) a field f of the receiver: f
+						if ph, isPhi := list.(*ssa.Phi); isPhi {
+							for _, e := range ph.Edges {
+								if _, isCall := e.(*ssa.Call); isCall {
+									list = e
+								}
+							}
+						}
 						lc, ok := list.(*ssa.Call)
 						if !ok {
 							return -1
@@ -642,10 +649,21 @@ func findCompareQueryShape(c *engine.Context) *compareQueryShape {
 						} else if len(lc.Call.Args) > 0 {
 							recv = lc.Call.Args[0]
 						}
-						if ld, ok := recv.(*ssa.UnOp); ok {
-							if fa, ok := ld.X.(*ssa.FieldAddr); ok {
-								return fa.Field
+						field := -1
+						for i := 0; i < 6 && recv != nil; i++ {
+							ld, ok := recv.(*ssa.UnOp)
+							if !ok {
+								break
 							}
+							fa, ok := ld.X.(*ssa.FieldAddr)
+							if !ok {
+								break
+							}
+							field = fa.Field
+							if len(fn.Params) > 0 && fa.X == ssa.Value(fn.Params[0]) {
+								return field
+							}
+							recv = fa.X
 						}
 						return -1
 					}
@@ -702,6 +720,9 @@ func findCompareQueryShape(c *engine.Context) *compareQueryShape {
 					if sh.ctor != nil && sh.ctorLeft >= 0 && sh.ctorRight >= 0 && sh.ctorCmp >= 0 {
 						return sh
 					}
+					// no constructor function: the builders fill the query's fields themselves
+					sh.ctor = nil
+					return sh
 				}
 			}
 		}
@@ -718,30 +739,63 @@ func builderSites(c *engine.Context) []*builderSite {
 		return nil
 	}
 	var out []*builderSite
+	type rawSite struct {
+		at               ssa.Instruction
+		left, right, cmp ssa.Value
+	}
 	for _, fn := range p.Funcs {
 		if fn.Blocks == nil || fn == sh.ctor {
 			continue
 		}
+		var raws []rawSite
 		for _, b := range fn.Blocks {
 			for _, ins := range b.Instrs {
-				call, ok := ins.(*ssa.Call)
-				if !ok || call.Call.StaticCallee() != sh.ctor {
-					continue
+				if call, ok := ins.(*ssa.Call); ok && sh.ctor != nil && call.Call.StaticCallee() == sh.ctor {
+					raws = append(raws, rawSite{call, call.Call.Args[sh.ctorLeft], call.Call.Args[sh.ctorRight], call.Call.Args[sh.ctorCmp]})
 				}
+				if al, ok := ins.(*ssa.Alloc); ok && p.ParsePhase[fn] && types.Identical(al.Type().(*types.Pointer).Elem(), sh.Q) {
+					rs := rawSite{at: al}
+					for _, ref := range *al.Referrers() {
+						fa, ok := ref.(*ssa.FieldAddr)
+						if !ok {
+							continue
+						}
+						for _, r2 := range *fa.Referrers() {
+							if st, ok := r2.(*ssa.Store); ok && st.Addr == ssa.Value(fa) {
+								switch fa.Field {
+								case sh.leftField:
+									rs.left = st.Val
+								case sh.rightField:
+									rs.right = st.Val
+								case sh.cmpField:
+									rs.cmp = st.Val
+								}
+							}
+						}
+					}
+					if rs.left != nil && rs.right != nil && rs.cmp != nil {
+						raws = append(raws, rs)
+					}
+				}
+			}
+		}
+		for _, rs := range raws {
+			call := rs.at
+			{
 				// the comparator may be chosen on the way (a phi of constructed comparators): one site per choice
 				type choice struct {
 					v         ssa.Value
 					pred, blk *ssa.BasicBlock
 				}
-				choices := []choice{{v: call.Call.Args[sh.ctorCmp]}}
-				if ph, isPhi := call.Call.Args[sh.ctorCmp].(*ssa.Phi); isPhi {
+				choices := []choice{{v: rs.cmp}}
+				if ph, isPhi := rs.cmp.(*ssa.Phi); isPhi {
 					choices = nil
 					for i, e := range ph.Edges {
 						choices = append(choices, choice{v: e, pred: ph.Block().Preds[i], blk: ph.Block()})
 					}
 				}
 				for _, ch := range choices {
-					bs := &builderSite{fn: fn, call: call, left: call.Call.Args[sh.ctorLeft], right: call.Call.Args[sh.ctorRight], viaPred: ch.pred, viaBlock: ch.blk}
+					bs := &builderSite{fn: fn, call: call, left: rs.left, right: rs.right, viaPred: ch.pred, viaBlock: ch.blk}
 					cmp := ch.v
 					if mi, ok := cmp.(*ssa.MakeInterface); ok {
 						if pt, ok := mi.X.Type().(*types.Pointer); ok {
